@@ -13,8 +13,10 @@ TARGETS = ["Base/Corr.vo", "C11/Model.vo", "C11/Spec.vo", "C11/ProofsMap.vo", "C
            "C03/ProofsMLoops.vo", "C03/ProofsMSet.vo", "C03/ProofsMDot.vo", "C03/ProofsMDot2.vo", "C03/ProofsMInd.vo",
            "C03/PropsM.vo",
            # round 3
-           "C03/ProofsMJ2.vo", "C03/PropsR3.vo"]
-PROPS = ["C03/Props.v", "C03/PropsR2.v", "C03/PropsM.v", "C03/PropsR3.v"]
+           "C03/ProofsMJ2.vo", "C03/PropsR3.vo",
+           # round 6: read-only sparse vectors, views, random-access cache
+           "C03/ModelC.vo", "C03/CorrC.vo", "C03/SpecC.vo", "C03/ProofsC.vo", "C03/ProofsC2.vo", "C03/PropsC.vo"]
+PROPS = ["C03/Props.v", "C03/PropsR2.v", "C03/PropsM.v", "C03/PropsR3.v", "C03/PropsC.v"]
 PARTIAL = ("Proved in Coq, for ALL worlds/vectors/matrices/operands (no bounds), about the hand-written models coq/C03/Model.v "
            "(vectors) and coq/C03/ModelM.v (whole matrices: header + one sparse vector / row-major list), both on top of the "
            "shared sparse-vector model coq/C11/Model.v (heap of cells + value map + ordered key set standing for the AVL index, "
@@ -35,7 +37,25 @@ PARTIAL = ("Proved in Coq, for ALL worlds/vectors/matrices/operands (no bounds),
            "theorem: vector operations + C11's 25 container operations; matrix operations are per-call theorems whose "
            "hypothesis (GoodM) is re-established by each of them for its receiver. abs(Clone) is C11's theorem; VdivV on a "
            "float type with a zero divisor AND a sparse receiver among its operands has no theorem (tied only). The concrete "
-           "capital twins VADDV.. are C09's. Equals with epsilon <= 0 is outside the statement.")
+           "capital twins VADDV.. are C09's. Equals with epsilon <= 0 is outside the statement. "
+           "ROUND 6 - read-only sparse vectors (SparseConst<T>Vector, coq/C03/ModelC.v, a separate world of const objects, "
+           "dense buffers and dense ConstSlice views): proved for ALL inputs: the safe constructor (any order of distinct "
+           "indices < n: sorted, zeros dropped, every element preserved; an index >= n rejected), <T>At through the lazily "
+           "built cache = the element for every cache state and every index with a frame clause, sort.SearchInts as coded "
+           "(binary search) on sorted slices, ConstSlice i <= j both branches (dimension, own empty cache, ascending again, "
+           "element t = parent's element i + t), whole read sequences (= value list), view/parent access order, the plain "
+           "iterator.  NOT proved, tied by the exact correspondence and judged by the plain-list oracle only: the const joint "
+           "iterator and const Equals (modelled as coded), AsDense<T>Vector(const) by iteration (cfill), AsSparseConst, the "
+           "dense receivers' loops with const operands / dense views at world level (the per-read theorem is proved, the "
+           "loop-level composition is not), VdotV; the unsafe constructor with slices of different length, duplicate indices "
+           "(sort.Sort is not stable) and negative indices are outside (never generated).  MUTABLE sparse receivers and "
+           "matrix products with const / view / sparse-slice operands are NOT in a Coq model (C11's operand type has no such "
+           "case): Go-level differential stream only (harness/c03/conststream.go: every receiver kind x operand container "
+           "kind against the all-fresh-dense run, incl. the receiver itself as operand and dense / sparse matrix receivers "
+           "with sparse operands).  ConstIteratorFrom(i) = exactly the stored entries with index >= i for every i (proved; "
+           "the restart at the first entry, C03-CONST-ITERFROM-WRAP, was repaired by 1e92a33 and is a regression case of "
+           "the corpus now).  Index reads outside [0, n) return 0 on const vectors "
+           "(no guard; dense and sparse vectors panic): modelled, not judged (guards are C20's).")
 KNOWN_PROPOSED = os.path.join(vlib.ROOT, "corpus/C03/known_findings_proposed.json")
 CORPUS = os.path.join(vlib.ROOT, "corpus/C03/corpus.jsonl")
 SPECIAL_CORPUS = os.path.join(vlib.ROOT, "corpus/C03/special.jsonl")
@@ -60,10 +80,10 @@ def corr(ctx, binary, n):
     if rc != 0:
         ctx.violation({"obligation": "C03 harness run", "log": out[-3000:]}, False,
                       "harness failed on the implementation (crash while generating histories)")
-        return {"cases": [], "mcases": []}
-    bad = {"cases": [], "mcases": []}
+        return {"cases": [], "mcases": [], "ccases": []}
+    bad = {"cases": [], "mcases": [], "ccases": []}
     total = 0
-    for stem in ("cases", "mcases"):
+    for stem in ("cases", "mcases", "ccases"):
         mp = os.path.join(ctx.dir, stem + ".meta.json")
         if not os.path.exists(mp):
             continue
@@ -85,7 +105,7 @@ def corr(ctx, binary, n):
             for i in r["mism"]:
                 bad[stem].append(cases[k * meta["per_shard"] + i])
         ctx.log("correspondence (%s): %d histories in %d shards (%.0fs coqc), %d mismatching" % (
-            "vectors" if stem == "cases" else "matrices", len(cases), len(res), sum(r["secs"] for r in res),
+            {"cases": "vectors", "mcases": "matrices", "ccases": "read-only sparse vectors"}[stem], len(cases), len(res), sum(r["secs"] for r in res),
             len(bad[stem])))
     return bad
 
@@ -111,6 +131,50 @@ def hunt(ctx, binary, bad, broken):
     elif rc != 0:
         ctx.notes.append("hunt run failed: " + out[-500:])
     return None
+
+
+def chunt(ctx, binary, bad):
+    """Read-only sparse vectors, views and every operand container kind: plain-list oracle on the implementation
+    (harness/c03/constoracle.go) + the operand-container differential stream (conststream.go).  Returns True
+    when a failing input was reported."""
+    rp = os.path.join(ctx.dir, "chunt_in.json")
+    json.dump({"ccases": [dict(c, outs=None) for c in bad.get("ccases", [])[:50]]}, open(rp, "w"))
+    n = 600 if ctx.tier == "quick" else 6000
+    rc, out = vlib.sh([binary, "--extra", "chunt", "--replay", rp, "--n", str(n), "--seed", str(ctx.seed),
+                       "--tier", ctx.tier, "--out", ctx.dir], timeout=1500, env=vlib.go_env())
+    hp = os.path.join(ctx.dir, "chunt.json")
+    if rc != 0 or not os.path.exists(hp):
+        ctx.violation({"obligation": "C03 const-vector oracle run", "log": out[-3000:]}, False,
+                      "harness failed on the implementation (crash in the const-vector oracle / operand stream)")
+        return False
+    h = json.load(open(hp))
+    st = h.get("stream") or {}
+    ctx.cov.setdefault("extra", {})["const_vectors"] = {
+        "oracle_histories_tried": h.get("tried"),
+        "exhaustive_zero_patterns_x_slice_ranges_x_access_orders": {"histories": h.get("exhaustive_tried"),
+                                                                    "max_dim": h.get("exhaustive_max_dim"), "exhaustive": True},
+        "operand_stream": {k: st.get(k) for k in ("trials", "runs", "elements_compared", "per_op", "per_operand_kind",
+                                                  "per_receiver_kind")},
+        "known": h.get("known")}
+    ctx.log("const vectors: %s histories judged by the plain-list oracle (%s exhaustive, dims <= %s); operand stream: %s runs, "
+            "%s elements compared" % (h.get("tried"), h.get("exhaustive_tried"), h.get("exhaustive_max_dim"),
+                                      st.get("runs"), st.get("elements_compared")))
+    listed = {f["id"]: f for f in known_list()}
+    for fid, wit in sorted((h.get("known") or {}).items()):
+        what = listed[fid]["what"] if fid in listed else "(class matched in harness/c03/constoracle.go, not listed yet)"
+        ctx.known_finding(fid, what + " | witness: " + wit)
+    for fid in sorted(listed):
+        if listed[fid].get("match", {}).get("site", "").startswith("chunt:") and fid not in (h.get("known") or {}):
+            ctx.notes.append("known finding %s no longer reproduces in the const-vector oracle run" % fid)
+    if h.get("found") and h.get("ccase"):
+        ctx.violation({"ccase": h["ccase"], "failure": h["failure"], "at": h["at"]}, True,
+                      "result depends on storage (read-only sparse vector / view / access order): " + h["failure"])
+        return True
+    if st.get("found"):
+        ctx.violation({"stream": st["witness"], "failure": st["failure"]}, True,
+                      "result depends on the operand container: " + st["failure"])
+        return True
+    return False
 
 
 def known(ctx, binary):
@@ -179,13 +243,16 @@ def run(ctx):
     ctx.cov["trusted_base"] = vlib.TRUSTED_BASE_COMMON + [
         "hook /repo/verif_c11.go (C11's read-only dump of the private map and AVL index keys of sparse vectors)",
         "shared sparse-vector model coq/C11/Model.v (the AVL index abstracted to its ordered key set, C19)",
+        "package reflect reading the private fields indices/values/idxmap of SparseConst<T>Vector (read-only, no hook)",
+        "const vectors: the parallel slices indices/values modelled as one list of pairs (invariant: equal lengths)",
         "axioms: see 'print_assumptions' (expected: closed under the global context)"]
     ctx.cov["partial"] = PARTIAL
     ok, failures = vlib.proof_stage(ctx, TARGETS, PROPS)
     mods = [("C03.Props", vlib.theorem_names(os.path.join(vlib.COQ, "C03/Props.v"))),
             ("C03.PropsR2", vlib.theorem_names(os.path.join(vlib.COQ, "C03/PropsR2.v"))),
             ("C03.PropsM", vlib.theorem_names(os.path.join(vlib.COQ, "C03/PropsM.v"))),
-            ("C03.PropsR3", vlib.theorem_names(os.path.join(vlib.COQ, "C03/PropsR3.v")))]
+            ("C03.PropsR3", vlib.theorem_names(os.path.join(vlib.COQ, "C03/PropsR3.v"))),
+            ("C03.PropsC", vlib.theorem_names(os.path.join(vlib.COQ, "C03/PropsC.v")))]
     ctx.cov["theorems"] = [t for _, ths in mods for t in ths]
     if ok:
         ctx.cov["print_assumptions"] = vlib.print_assumptions("C03", mods, ctx.dir)
@@ -200,6 +267,12 @@ def run(ctx):
     broken = [f["target"] for f in failures] + (["correspondence C03.Corr.check"] if nbad else [])
     known(ctx, binary)
     special(ctx, binary)
+    cfound = chunt(ctx, binary, bad)
+    if bad.get("ccases") and not cfound:
+        ctx.violation({"ccase": bad["ccases"][0],
+                       "obligation": "correspondence C03.CorrC.checkc (model vs implementation, read-only sparse vectors)"},
+                      False, "model and implementation disagree on a const-vector history (%d of them), but no history "
+                      "violating the property itself was found" % len(bad["ccases"]))
     h0 = hunt(ctx, binary, bad, broken)
     if h0:
         # (the oracle does not judge the RESULT of Equals calls with epsilon <= 0: outside the statement)
@@ -229,6 +302,22 @@ def replay(ctx, path):
         print("differences between storages: %d, matched by recorded classes %s, unmatched: %d" % (
             res["differences"], res["known_ids"], res["unmatched"]))
         return 1 if res["fails"] else 0
+    if "ccase" in rp or "stream" in rp:
+        hin = os.path.join(ctx.dir, "chunt_in.json")
+        if "stream" in rp:
+            json.dump({"stream": rp["stream"]}, open(hin, "w"))
+        else:
+            case = dict(rp["ccase"]); case.pop("outs", None)
+            json.dump({"ccases": [case]}, open(hin, "w"))
+        vlib.sh([binary, "--extra", "chunt", "--replay", hin, "--n", "0", "--out", ctx.dir], env=vlib.go_env())
+        h = json.load(open(os.path.join(ctx.dir, "chunt.json")))
+        print("property oracle on the implementation: %s" % (h["failure"] if h.get("found") else "holds"))
+        if h.get("found"):
+            return 1
+        if "ccase" in rp and rp.get("obligation"):
+            b2 = corr(ctx, binary, 360 if ctx.tier == "quick" else 3600)
+            return 1 if b2["ccases"] else 0
+        return 0
     if "mcase" in rp:
         hin = os.path.join(ctx.dir, "hunt_in.json")
         case = dict(rp["mcase"]); case.pop("outs", None)
